@@ -37,6 +37,9 @@ type Builder struct {
 	noInline map[string]bool
 	stack    []*types.Func
 	loopSeq  int
+	// fnBind: locals currently bound to one static function (the value variable
+	// of an unrolled range over a table of functions)
+	fnBind map[types.Object]*types.Func
 }
 
 // buildGraph builds the inlined graph of a product function.
@@ -303,6 +306,12 @@ func (b *Builder) stmt(s ast.Stmt) {
 		b.loops = b.loops[:len(b.loops)-1]
 		b.start(done)
 	case *ast.RangeStmt:
+		if _, ok := s.Value.(*ast.Ident); ok {
+			if fns := b.funcTable(s); fns != nil {
+				b.unrollFuncTable(s, fns)
+				break
+			}
+		}
 		b.rangeStmt(s)
 	case *ast.SwitchStmt:
 		b.switchStmt(s)
@@ -1091,7 +1100,121 @@ func isVolatile(v *Var) bool { return len(v.Name) > 4 && v.Name[:4] == "vol:" }
 
 // staticCallee resolves the callee object of a call (nil for dynamic calls).
 func (b *Builder) staticCallee(call *ast.CallExpr) types.Object {
+	if id, ok := ast.Unparen(call.Fun).(*ast.Ident); ok && b.fnBind != nil {
+		if fn := b.fnBind[b.info.Uses[id]]; fn != nil {
+			return fn
+		}
+	}
 	return typeutil.Callee(b.info, call)
+}
+
+// funcTable: the range is over a table of package-level functions - a composite
+// literal, or a local defined once as one and only read. Returns the functions
+// in order.
+func (b *Builder) funcTable(s *ast.RangeStmt) []*types.Func {
+	if s.Value == nil || s.Tok != token.DEFINE {
+		return nil
+	}
+	if s.Key != nil {
+		if id, ok := s.Key.(*ast.Ident); !ok || id.Name != "_" {
+			return nil
+		}
+	}
+	x := ast.Unparen(s.X)
+	if id, ok := x.(*ast.Ident); ok {
+		v, isVar := b.info.Uses[id].(*types.Var)
+		if !isVar || isPkgLevel(v) || b.inst.Fn == nil {
+			return nil
+		}
+		fs := b.P.Funcs[b.inst.Fn.Origin()]
+		if fs == nil {
+			return nil
+		}
+		var def ast.Expr
+		ndef, bad := 0, false
+		ast.Inspect(fs.Decl.Body, func(m ast.Node) bool {
+			switch y := m.(type) {
+			case *ast.AssignStmt:
+				for i, l := range y.Lhs {
+					if lid := rootIdent(l); lid != nil && (b.info.Defs[lid] == v || b.info.Uses[lid] == v) {
+						if _, plain := l.(*ast.Ident); !plain || len(y.Rhs) != len(y.Lhs) {
+							bad = true
+							continue
+						}
+						ndef++
+						def = y.Rhs[i]
+					}
+				}
+			case *ast.ValueSpec:
+				for i, nm := range y.Names {
+					if b.info.Defs[nm] == v {
+						ndef++
+						if i < len(y.Values) {
+							def = y.Values[i]
+						}
+					}
+				}
+			case *ast.UnaryExpr:
+				if lid := rootIdent(y.X); y.Op == token.AND && lid != nil && b.info.Uses[lid] == v {
+					bad = true
+				}
+			}
+			return true
+		})
+		if ndef != 1 || bad || def == nil {
+			return nil
+		}
+		x = ast.Unparen(def)
+	}
+	cl, ok := x.(*ast.CompositeLit)
+	if !ok || len(cl.Elts) == 0 {
+		return nil
+	}
+	var out []*types.Func
+	for _, e := range cl.Elts {
+		var obj types.Object
+		switch y := ast.Unparen(e).(type) {
+		case *ast.Ident:
+			obj = b.info.Uses[y]
+		case *ast.SelectorExpr:
+			if _, isSel := b.info.Selections[y]; !isSel {
+				obj = b.info.Uses[y.Sel]
+			}
+		}
+		fn, ok := obj.(*types.Func)
+		if !ok || fn.Type().(*types.Signature).Recv() != nil {
+			return nil
+		}
+		out = append(out, fn)
+	}
+	return out
+}
+
+// unrollFuncTable builds `for _, f := range table { body }` as one copy of the
+// body per table row, with calls through f resolved to that row's function.
+func (b *Builder) unrollFuncTable(s *ast.RangeStmt, fns []*types.Func) {
+	id := s.Value.(*ast.Ident)
+	obj := b.info.Defs[id]
+	if b.fnBind == nil {
+		b.fnBind = map[types.Object]*types.Func{}
+	}
+	done := b.label()
+	for _, fn := range fns {
+		next := b.label()
+		if id.Name != "_" {
+			v := b.lhsVar(id, true)
+			b.assignVar(v, &Term{Op: "fn", Name: b.P.abbrev(fn.FullName())}, s.Pos())
+		}
+		b.fnBind[obj] = fn
+		b.loops = append(b.loops, loopCtx{brk: done, cont: next})
+		b.stmt(s.Body)
+		b.loops = b.loops[:len(b.loops)-1]
+		b.jump(next)
+		b.start(next)
+	}
+	delete(b.fnBind, obj)
+	b.jump(done)
+	b.start(done)
 }
 
 // counterAsRange: `for i := 0; i < len(Y); i++ { body }` where the body assigns
